@@ -39,7 +39,11 @@ type specEnv struct {
 }
 
 func (f *Frame) specEnv(cur, old *State) *specEnv {
-	return &specEnv{f: f, cur: cur, old: old, vars: map[string]SVal{}}
+	se := &specEnv{f: f, cur: cur, old: old, vars: map[string]SVal{}}
+	for k, v := range f.specVars {
+		se.vars[k] = v
+	}
+	return se
 }
 
 func (se *specEnv) fork() *specEnv {
